@@ -296,6 +296,26 @@ def build_tasks(tier):
     inner = packed[packed.index(b"\x63") + 2:].replace(b"\x87\x01a", deep, 1)
     body = b"\x02\x01\x01" + b"\x63" + (b"\x83" + len(inner).to_bytes(3, "big")) + inner
     bad.append(b"\x30\x83" + len(body).to_bytes(3, "big") + body)
+    # identifiers in high-tag-number form (X.690 8.1.2.4: 1F / 3F / 5F ... followed by base-128 digits) in every class, with numbers
+    # around and far above the defined UNIVERSAL types: as the first octets on the wire, as an extra element after the
+    # protocolOp, and as an extra element inside an ExtendedRequest / ExtendedResponse
+    def b128(n):
+        ds = [n & 0x7F]
+        n >>= 7
+        while n:
+            ds.append((n & 0x7F) | 0x80)
+            n >>= 7
+        return bytes(reversed(ds))
+    for cbits in (0x00, 0x40, 0x80, 0xC0):
+        for cons in (0x00, 0x20):
+            for num in (0, 30, 31, 36, 37, 100, 127, 128, 16383, 16384, 2 ** 31 - 1, 2 ** 31, 2 ** 64):
+                el = bytes([cbits | cons | 0x1F]) + b128(num) + b"\x00"
+                bad.append(el)
+                for op in (b"\x77\x05\x80\x031.2", b"\x78\x07\x0a\x01\x00\x04\x00\x04\x00"):
+                    body = b"\x02\x01\x01" + op + el
+                    bad.append(bytes([0x30, len(body)]) + body)
+                    body = b"\x02\x01\x01" + bytes([op[0], op[1] + len(el)]) + op[2:] + el
+                    bad.append(bytes([0x30, len(body)]) + body)
     for b in bad:
         for role in ("server", "client"):
             T.append((role, role, b, "malformed " + b[:12].hex(), 1))
